@@ -5,7 +5,7 @@
 set -u
 export GOFLAGS=-mod=mod GOPROXY=off GOSUMDB=off GOTOOLCHAIN=local
 SEED=$(readlink -f "$1"); NAME=$(basename "$SEED")
-WT=/tmp/cs/$NAME; rm -rf "$WT"; mkdir -p /tmp/cs
+WT=${CS_ROOT:-/tmp/cs}/$NAME; rm -rf "$WT"; mkdir -p ${CS_ROOT:-/tmp/cs}
 git -C /repo worktree prune
 git -C /repo worktree add -q --detach "$WT" HEAD || exit 2
 RES="$SEED/confirm.json"
